@@ -68,8 +68,12 @@ def ref_point(p, rot, tr, s):
 def wire_args(objs, fmt=repr):
     out = []
     for k_, o in enumerate(objs):
-        if o[0] != 'w':
-            raise symx.HarnessError('C05: wires only')
+        if o[0] == 'a':
+            out += ['-a', ','.join([str(o[1])] + [fmt(float(c)) for c in o[2:6]])]
+            continue
+        if o[0] == 'h':
+            out += ['--helix', ','.join([str(o[1])] + [fmt(float(c)) for c in o[2:7]])]
+            continue
         out += ['-w', ','.join([str(o[1])] + [fmt(float(c)) for c in o[2]] + [fmt(float(c)) for c in o[3]] + [fmt(float(o[4]))])]
         if len(o) > 5 and o[5]:
             out += ['--taper-wire=%d,%d' % (k_ + 1, o[5])]          # tapered segmentation (bounds depend on the radius)
@@ -99,6 +103,9 @@ def three_models(main, gname, move, tag=None):
     elif s != 1.0:
         opts = ['--geo-scale=%r%s' % (s, tg)] + opts          # scaling is given first and must still be applied last
     m_opt = run_main(main, ['-f', repr(F0 / s)] + wire_args(objs) + opts + tail)
+    if any(o[0] != 'w' for o in objs):
+        # arcs and helices are placed by the options only (they have no coordinates to write the motion into)
+        return base, m_opt, None
     objs2 = []
     for k, o in enumerate(objs):
         if tag is None or tag == k + 1:
@@ -124,7 +131,7 @@ def fill_invariance(ck, sh, mm, gname, mname, tag=None):
         c = symx.ctx()
         base, m_opt, m_co = three_models(M.main, gname, move, tag)
         V, ZL = SC.var('V'), SC.var('ZL')
-        models = [m_opt, m_co] + ([base] if tag is None else [])
+        models = [m_opt] + ([m_co] if m_co is not None else []) + ([base] if tag is None else [])
         for m in models:
             if len(m.pulses) != len(base.pulses) and tag is None:
                 return dict(inputs=dict(V=V, ZL=ZL), mismatch='%d pulses instead of %d' % (len(m.pulses), len(base.pulses)))
@@ -136,7 +143,7 @@ def fill_invariance(ck, sh, mm, gname, mname, tag=None):
                 m.Zfill = np.array(m.Z, dtype=object)
                 m.compute_impedance_matrix_loads()
                 m.compute_rhs()
-        if len(m_opt.pulses) != len(m_co.pulses):
+        if m_co is not None and len(m_opt.pulses) != len(m_co.pulses):
             return dict(inputs=dict(V=V, ZL=ZL), mismatch='options give %d pulses, coordinates %d' % (len(m_opt.pulses), len(m_co.pulses)))
         for a in pc.additivity_axioms(T):
             c.axiom(a)
@@ -150,8 +157,9 @@ def fill_invariance(ck, sh, mm, gname, mname, tag=None):
         base, m_opt, m_co = o['base'], o['m_opt'], o['m_co']
         n = len(m_opt.pulses)
         g = []
-        g.append(('options == coordinates: same matrix', z3.And(*[pc.close_goal(m_opt.Zfill[i][j], m_co.Zfill[i][j]) for i in range(n) for j in range(n)])))
-        g.append(('options == coordinates: same right-hand side and load terms', z3.And(
+        if m_co is not None:
+          g.append(('options == coordinates: same matrix', z3.And(*[pc.close_goal(m_opt.Zfill[i][j], m_co.Zfill[i][j]) for i in range(n) for j in range(n)])))
+          g.append(('options == coordinates: same right-hand side and load terms', z3.And(
             *[core.eq_term(m_opt.rhs[i], m_co.rhs[i]) for i in range(n)],
             *[core.close_term(SC.lift(m_opt.Z[i][i]) - SC.lift(m_opt.Zfill[i][i]), SC.lift(m_co.Z[i][i]) - SC.lift(m_co.Zfill[i][i]), 1e-12) for i in (0,)])))
         if tag is None:
@@ -240,7 +248,7 @@ def replay_sentence(mm, gname, move, tag=None):
     base, m_opt, m_co = three_models(mm.main, gname, move, tag)
     rot, tr, s = move
     res = []
-    for m in (base, m_opt, m_co):
+    for m in (base, m_opt, m_co if m_co is not None else m_opt):
         m.sources = []
         m.register_source(mm.Excitation(1 + 0.5j), 1)
         m.compute()
@@ -497,7 +505,7 @@ def main(args):
     ck.shadow_stats = symx.load().stats
     if ck.tier == 'quick':
         parts = [('fill_invariance', ('G2', 'far-generic')), ('fill_invariance', ('G5', 'right-angles')), ('fill_invariance', ('G4', 'x-then-y')),
-                 ('fill_invariance', ('G9', 'z-far')), ('fill_invariance', ('G8', 'z-right')), ('fill_invariance', ('G28', 'z-quarter')), ('fill_invariance', ('G11', 'far-generic')), ('fill_invariance', ('G21', 'right-angles')), ('fill_invariance', ('G2', 'two-scales')), ('fill_invariance', ('G2', 'z-only', 2)),
+                 ('fill_invariance', ('G9', 'z-far')), ('fill_invariance', ('G8', 'z-right')), ('fill_invariance', ('G28', 'z-quarter')), ('fill_invariance', ('G30', 'far-generic')), ('fill_invariance', ('G12', 'right-angles')), ('fill_invariance', ('G11', 'far-generic')), ('fill_invariance', ('G21', 'right-angles')), ('fill_invariance', ('G2', 'two-scales')), ('fill_invariance', ('G2', 'z-only', 2)),
                  ('far_field', ('G2', 'z-only')), ('far_field', ('G9', 'z-far')), ('mixed_tag', ('G2',)), ('mixed_tag', ('G5',))]
         parts += [('topology', (f, k)) for f in ('near-miss', 'fuzzy-join', 'just-apart', 'grounded') for k in ('scale',)]
         parts += [('topology', ('fuzzy-join', 'translate')), ('topology', ('grounded', 'translate')), ('topology', ('just-apart', 'rotate')), ('topology', ('low-junction', 'translate')), ('topology', ('low-junction', 'scale'))]
@@ -505,6 +513,7 @@ def main(args):
         parts = [('fill_invariance', (g, mv)) for g in ('G1', 'G2', 'G3', 'G4', 'G5', 'G6', 'G11') for mv in MOVES_FREE]
         parts += [('fill_invariance', (g, mv)) for g in ('G7', 'G8', 'G9', 'G10', 'G14', 'G16', 'G28') for mv in MOVES_GND]
         parts += [('fill_invariance', ('G2', mv, 2)) for mv in MOVES_FREE] + [('fill_invariance', ('G5', 'z-only', 3))]
+        parts += [('fill_invariance', (g, mv)) for g in ('G12', 'G13', 'G30') for mv in ('far-generic', 'right-angles', 'x-then-y')]
         parts += [('far_field', (g, 'z-only')) for g in ('G1', 'G2', 'G5')] + [('far_field', (g, mv)) for g in ('G8', 'G9') for mv in MOVES_GND]
         parts += [('topology', (f, k)) for f in FRAMES for k in ('scale', 'translate', 'rotate')]
         parts += [('mixed_tag', (g,)) for g in ('G2', 'G3', 'G5', 'G6')]
